@@ -368,7 +368,271 @@ func (x *gen) next(phase string) string {
 	return "tickall"
 }
 
-var phases = []string{"healthy", "chaos", "partition", "crashy", "confchange", "snapshots", "transfer", "reads", "limits"}
+var phases = []string{"healthy", "chaos", "partition", "crashy", "confchange", "snapshots", "transfer", "reads", "limits", "stall", "dsnap", "fig8snap"}
+
+func (x *gen) isLeader(n *Node) bool {
+	if !n.alive || n.rn == nil {
+		return false
+	}
+	d := n.rn.VerifState()
+	return d.State == raft.StateLeader
+}
+
+// isolate cuts n off from every other node
+func (x *gen) isolate(n *Node) {
+	for _, id := range x.c.ids {
+		if id != n.id {
+			x.c.exec(fmt.Sprintf("block %d %d", n.id, id))
+		}
+	}
+}
+
+// elect makes n campaign until it leads (among the nodes it can reach)
+func (x *gen) elect(n *Node) bool {
+	for try := 0; try < 6 && !x.isLeader(n); try++ {
+		x.c.exec(fmt.Sprintf("campaign %d", n.id))
+		for r := 0; r < 4; r++ {
+			for _, m := range x.c.alive() {
+				x.c.exec(fmt.Sprintf("process %d", m.id))
+			}
+			x.deliverAll()
+		}
+		if !x.isLeader(n) {
+			for i := 0; i < n.cfg.ET; i++ {
+				x.c.exec(fmt.Sprintf("tick %d", n.id))
+			}
+		}
+	}
+	return x.isLeader(n)
+}
+
+// termOf: current term of a running node
+func (x *gen) termOf(n *Node) uint64 {
+	if !n.alive || n.rn == nil {
+		return 0
+	}
+	d := n.rn.VerifState()
+	return d.Term
+}
+
+// electAmong ticks and serves the nodes in [in] (one message at a time) until one of them leads
+// a term above [above]; returns it right at that moment, before its first Ready is processed.
+func (x *gen) electAmong(in []*Node, above uint64, only *Node) *Node {
+	check := func() *Node {
+		for _, n := range in {
+			if x.isLeader(n) && x.termOf(n) > above {
+				return n
+			}
+		}
+		return nil
+	}
+	for round := 0; round < 60; round++ {
+		for _, n := range in {
+			if only == nil || n == only {
+				x.c.exec(fmt.Sprintf("tick %d", n.id))
+			}
+			if l := check(); l != nil {
+				return l
+			}
+			x.c.exec(fmt.Sprintf("process %d", n.id))
+		}
+		for k := len(x.c.net); k > 0 && len(x.c.net) > 0; k-- {
+			x.c.exec("deliver 0")
+			if l := check(); l != nil {
+				return l
+			}
+		}
+	}
+	return nil
+}
+
+// directedFigure8Snap: two failed leaderships leave divergent uncommitted tails of different
+// terms; the first leader returns, commits its old entries, takes a snapshot at one of them
+// and compacts; the node with the other tail (same length, higher term) is sent that snapshot.
+func (x *gen) directedFigure8Snap() {
+	a := x.leader()
+	if a == nil || len(x.c.alive()) < 3 {
+		x.c.exec("tickall")
+		x.c.exec("flush 3")
+		return
+	}
+	x.c.exec("flush 4")
+	giveUp := func() {
+		x.c.exec("unblock")
+		x.c.exec("flush 4")
+	}
+	// a is cut off with two uncommitted entries
+	x.isolate(a)
+	x.net0()
+	x.c.exec(fmt.Sprintf("propose %d", a.id))
+	x.c.exec(fmt.Sprintf("propose %d", a.id))
+	x.c.exec(fmt.Sprintf("process %d", a.id))
+	x.net0()
+	// some other node wins a higher term; it is cut off before its first append leaves
+	cnode := x.electAmong(x.others(a.id), x.termOf(a), nil)
+	if cnode == nil {
+		giveUp()
+		return
+	}
+	x.isolate(cnode)
+	x.c.exec(fmt.Sprintf("propose %d", cnode.id))
+	x.c.exec(fmt.Sprintf("process %d", cnode.id))
+	x.net0()
+	// a returns (c stays cut off), wins again and commits its old entries
+	x.c.exec("unblock")
+	x.isolate(cnode)
+	if l := x.electAmong(x.others(cnode.id), x.termOf(cnode), a); l != a {
+		giveUp()
+		return
+	}
+	x.c.exec(fmt.Sprintf("propose %d", a.id))
+	for r := 0; r < 5; r++ {
+		for _, m := range x.others(cnode.id) {
+			x.c.exec(fmt.Sprintf("process %d", m.id))
+		}
+		x.deliverAll()
+	}
+	// snapshot at one of the old entries, compact up to it
+	x.c.exec(fmt.Sprintf("snapshot %d %d", a.id, 2+x.g.Intn(2)))
+	x.c.exec(fmt.Sprintf("compact %d 1000", a.id))
+	x.c.exec("unblock")
+	for r := 0; r < 8; r++ {
+		x.c.exec(fmt.Sprintf("tick %d", a.id))
+		x.c.exec("flush 2")
+	}
+}
+
+// net0 drops every message in flight (stale traffic of the cut-off node)
+func (x *gen) net0() {
+	for len(x.c.net) > 0 {
+		x.c.exec("drop 0")
+	}
+}
+
+// others: alive nodes except f
+func (x *gen) others(f uint64) []*Node {
+	var r []*Node
+	for _, n := range x.c.alive() {
+		if n.id != f {
+			r = append(r, n)
+		}
+	}
+	return r
+}
+
+// deliverAll delivers every in-flight message once (messages produced meanwhile stay).
+func (x *gen) deliverAll() {
+	for k := len(x.c.net); k > 0 && len(x.c.net) > 0; k-- {
+		x.c.exec("deliver 0")
+	}
+}
+
+// directedStall: a follower receives a committed configuration change, accepts the Ready that
+// hands it out (or lets its apply thread lag), and is then ticked past its election timeout
+// without hearing from the leader, before the change is applied.
+func (x *gen) directedStall() {
+	l := x.leader()
+	if l == nil || len(x.c.alive()) < 3 {
+		x.c.exec("tickall")
+		x.c.exec("flush 3")
+		return
+	}
+	var f *Node
+	for _, n := range x.others(l.id) {
+		if f == nil || x.g.Intn(2) == 0 {
+			f = n
+		}
+	}
+	x.c.exec(fmt.Sprintf("proposecc %d %s", l.id, x.confChangeSpec()))
+	for r := 0; r < 5; r++ {
+		for _, n := range x.others(f.id) {
+			x.c.exec(fmt.Sprintf("process %d", n.id))
+		}
+		x.deliverAll()
+	}
+	// f accepts what it has (not applied yet), optionally persists in async mode
+	x.c.exec(fmt.Sprintf("sub %d", f.id))
+	if f.cfg.Async && x.g.Intn(2) == 0 {
+		x.c.exec(fmt.Sprintf("appendthread %d", f.id))
+	}
+	for i := 0; i < 2*f.cfg.ET+2; i++ {
+		x.c.exec(fmt.Sprintf("tick %d", f.id))
+		if x.g.Intn(6) == 0 {
+			x.c.exec(fmt.Sprintf("sub %d", f.id))
+		}
+	}
+	if x.g.Intn(2) == 0 {
+		x.deliverAll()
+	}
+	x.c.exec(fmt.Sprintf("process %d", f.id))
+	x.c.exec("flush 4")
+}
+
+// directedDoubleSnapshot: a lagging follower is sent a snapshot, accepts it without finishing the
+// write, and is sent a newer snapshot before the first write is acknowledged.
+func (x *gen) directedDoubleSnapshot() {
+	l := x.leader()
+	if l == nil || len(x.c.alive()) < 3 {
+		x.c.exec("tickall")
+		x.c.exec("flush 3")
+		return
+	}
+	f := x.others(l.id)[x.g.Intn(len(x.others(l.id)))]
+	x.c.exec(fmt.Sprintf("block %d %d", l.id, f.id))
+	grow := func() {
+		for i := 0; i < 3; i++ {
+			x.c.exec(fmt.Sprintf("propose %d", l.id))
+		}
+		for r := 0; r < 4; r++ {
+			for _, n := range x.others(f.id) {
+				x.c.exec(fmt.Sprintf("process %d", n.id))
+			}
+			x.deliverAll()
+		}
+		x.c.exec(fmt.Sprintf("snapshot %d", l.id))
+		x.c.exec(fmt.Sprintf("compact %d 1000", l.id))
+	}
+	grow()
+	x.c.exec("unblock")
+	usnap := func() uint64 {
+		if !f.alive || f.rn == nil {
+			return 0
+		}
+		d := f.rn.VerifState()
+		return d.UnstableSnapshot.GetMetadata().GetIndex()
+	}
+	// the leader learns that f is behind and sends the first snapshot; stop as soon as f holds it
+	for r := 0; r < 8 && usnap() == 0; r++ {
+		x.c.exec(fmt.Sprintf("tick %d", l.id))
+		x.c.exec(fmt.Sprintf("process %d", l.id))
+		x.deliverAll()
+		if usnap() != 0 {
+			break
+		}
+		x.c.exec(fmt.Sprintf("process %d", f.id))
+		x.deliverAll()
+	}
+	s1 := usnap()
+	if s1 != 0 {
+		// f accepts the Ready that carries the snapshot; the write is not finished
+		x.c.exec(fmt.Sprintf("sub %d", f.id))
+		x.c.exec(fmt.Sprintf("block %d %d", l.id, f.id))
+		grow()
+		x.c.exec("unblock")
+		x.c.exec("reportsnap 0 1")
+		for r := 0; r < 8 && usnap() <= s1; r++ {
+			x.c.exec(fmt.Sprintf("tick %d", l.id))
+			x.c.exec(fmt.Sprintf("process %d", l.id))
+			x.deliverAll()
+			if f.cfg.Async {
+				x.c.exec(fmt.Sprintf("sub %d", f.id)) // answers heartbeats while the append thread lags
+				x.deliverAll()
+			}
+		}
+	}
+	x.c.exec(fmt.Sprintf("process %d", f.id))
+	x.c.exec("flush 5")
+}
 
 // runRandom generates and executes one random schedule of about nops operations.
 func runRandom(s SchedCfg, nops int, tr *traceWriter) *Cluster {
@@ -386,8 +650,17 @@ func runRandom(s SchedCfg, nops int, tr *traceWriter) *Cluster {
 		if s.Family != "" && s.Family != "mixed" && x.g.Intn(3) != 0 {
 			phase = s.Family
 		}
-		for i, l := 0, 15+x.g.Intn(50); i < l && c.ops < nops; i++ {
-			c.exec(x.next(phase))
+		switch phase {
+		case "stall":
+			x.directedStall()
+		case "dsnap":
+			x.directedDoubleSnapshot()
+		case "fig8snap":
+			x.directedFigure8Snap()
+		default:
+			for i, l := 0, 15+x.g.Intn(50); i < l && c.ops < nops; i++ {
+				c.exec(x.next(phase))
+			}
 		}
 		if x.g.Intn(3) == 0 {
 			c.exec("unblock")
